@@ -22,6 +22,21 @@ func checkC20(p *Prog, r *Report) {
 	dateTextRules(p, r, "C20.R7")
 	// the series a run follows is the one it read for its own id: nothing parsed is kept in the session (shared with C03.R2b)
 	c03Session(p, r, p.SSA(), "C20.R8")
+	// the series a run reads stays the series it looks levels up in: only the reader (and the constructor) stores
+	// into the timestamp list and the value map — a list trimmed during the run loses the reading that opens a gap
+	{
+		r.Rule("C20.R9", "the groundwater series is written by its reader only: no other function stores into the timestamp list or the value map", 1)
+		var others []string
+		for _, f := range []string{"GWTimestamps", "GWTimeSeriesValues"} {
+			for _, w := range p.Fields().Writers(FieldRef{"GlobalVarsMain", f}) {
+				if w.Key != "hermes.ReadGroundWaterTimeSeries" && w.Key != "hermes.NewGlobalVarsMain" {
+					others = append(others, f+"@"+short(w.Key))
+				}
+			}
+		}
+		sort.Strings(others)
+		r.Ob("series:writers", "-", len(others) == 0, fmt.Sprintf("writers of the series besides its reader: %v", others))
+	}
 }
 
 func c20Lookup(p *Prog, r *Report) {
